@@ -418,17 +418,37 @@ def metrics(R, P, fns):
                 if x["k"] == "bin" and x["op"] in ("+=", "=") and f.show(f.d(x["a"][0])) == "used" and not (x["op"] == "=" and f.is_const(x["a"][1]) == 0):
                     adds.append((b.id, x))
     good = []
+    n_counts = 0
     for blk, x in adds:
         rhs = RU.uncast(f, x["a"][1])
         ok = rhs is not None and rhs["k"] == "bin" and rhs["op"] == "*"
         if ok:
             ops = [RU.uncast(f, a) for a in rhs["a"]]
             flds = sorted((o.get("rec"), o.get("f")) for o in ops if o is not None and o["k"] == "member")
-            ok = flds == [("page_header", "alloc_count"), ("sba_bin", "size")]
+            if flds == [("page_header", "alloc_count"), ("sba_bin", "size")]:
+                n_counts += 1
+            elif flds == [("sba_bin", "size")]:
+                # ... or the live counts of the bin's pages are summed first and scaled by the class size once
+                acc = [o for o in ops if o is not None and o["k"] == "var" and o.get("sc") == "local"]
+                ok = len(acc) == 1
+                if ok:
+                    srcs = []
+                    for b2 in f.blocks.values():
+                        for el2 in b2.elems:
+                            for y in f.walk(el2):
+                                if y["k"] == "bin" and y["op"] in ("+=", "=") and (f.d(y["a"][0]) or {}).get("k") == "var" and f.d(y["a"][0])["n"] == acc[0]["n"]:
+                                    r2 = RU.uncast(f, y["a"][1])
+                                    if y["op"] == "=" and f.is_const(r2) == 0:
+                                        continue
+                                    srcs.append(y["op"] == "+=" and r2 is not None and r2["k"] == "member" and (r2.get("rec"), r2["f"]) == ("page_header", "alloc_count"))
+                    ok = len(srcs) == 2 and all(srcs)
+                    n_counts += 2 if ok else 0
+            else:
+                ok = False
         good.append(ok)
     loops = [h for h, body in __import__("sa.num", fromlist=["Num"]).Num(f, P, None).loops().items()]
     in_loop = [blk for (blk, x), ok in zip(adds, good) if ok]
-    R.check(len(adds) == 2 and all(good), "PAGE-RELEASE", "metrics:active-is-sum-of-live-counts", "%s()" % f.name, "both additions to the total are page->alloc_count * bin->size (active-list pages and the working page)",
+    R.check(n_counts == 2 and all(good) and len(adds) in (1, 2), "PAGE-RELEASE", "metrics:active-is-sum-of-live-counts", "%s()" % f.name, "both additions to the total are page->alloc_count * bin->size (active-list pages and the working page)",
             "aws_small_block_allocator_bytes_active adds %s: a page on the active list is counted by something other than its live-block count (blocks released from a full page stay counted)" % [f.show(x["a"][1])[:60] for (b_, x), ok in zip(adds, good) if not ok])
     ga = f.calls("aws_array_list_get_at")
     R.check(len(ga) == 1 and (RU.strip_addr(f, RU.arg(f, ga[0].node, 0)) or {}).get("f") == "active_pages", "PAGE-RELEASE", "metrics:walks-the-active-list", "%s()" % f.name, "every active page's header is read")
